@@ -1,6 +1,7 @@
 package main
 
 import (
+	"os"
 	"fmt"
 	"go/token"
 	"go/types"
@@ -51,10 +52,25 @@ func (x *Exec) freshResult(st *State, sig *types.Signature, hint string) Val {
 	return Val{Tup: tup}
 }
 
+const (
+	ghClock = "#call$!clock"
+	ghWhen  = "#ret$!when$"
+	ghFirst = "#ret$!first$"
+)
+
 func (x *Exec) countCall(st *State, name string, args []Val, c *ssa.CallCommon) {
 	x.lastCallName = name
+	if os.Getenv("GOWP_DEBUG") == "records" {
+		fmt.Fprintf(os.Stderr, "record %s: %s (%d args)\n", relName(x.fn), name, len(args))
+	}
 	k := "#call$" + name
 	st.ghost[k] = Add(st.ghostInt(k), One)
+	// a logical clock of the activation's calls: when("f") is its value at the last call of f
+	st.ghost[ghClock] = Add(st.ghostInt(ghClock), One)
+	st.ghost[ghWhen+name] = st.ghost[ghClock]
+	if _, seen := st.ghost[ghFirst+name]; !seen {
+		st.ghost[ghFirst+name] = st.ghost[ghClock]
+	}
 	for i, a := range args {
 		if a.T != nil {
 			k := fmt.Sprintf("#arg$%s$%d", name, i)
@@ -656,8 +672,21 @@ func (x *Exec) builtin(st *State, site ssa.Instruction, b *ssa.Builtin, c *ssa.C
 		src := x.term(st, args[1], c.Args[1].Type())
 		var dl, sl *Term
 		if dst.Sort == SStr {
-			x.unsupported("copy into byte slice")
 			dl = x.slenOf(st, dst)
+			if dst.Op == "var" && strings.HasPrefix(dst.Val, mkBytesHint+"!") && src.Sort == SStr {
+				// the whole of a byte slice this activation made: every view of it now starts with
+				// what was copied (same length, the rest unknown)
+				sl0 := x.slenOf(st, src)
+				n := Ite(Le(dl, sl0), dl, sl0)
+				nd := x.freshVar(mkBytesHint, SStr)
+				x.strFacts(st, nd)
+				st.add(Eq(App("slen", SInt, nd), dl))
+				theU.DeclFunc("substr", SStr, SStr, SInt, SInt)
+				st.add(Implies(Le(sl0, dl), Eq(App("substr", SStr, nd, Zero, n), src)))
+				st.substState(dst.Val, nd)
+			} else {
+				x.unsupported("copy into byte slice")
+			}
 		} else {
 			dl = sliceAcc(dst, 2)
 			et := c.Args[0].Type().Underlying().(*types.Slice).Elem()
@@ -997,12 +1026,23 @@ func (x *Exec) havocLoopCalls(st *State, l *Loop) {
 			}
 		}
 	}
+	if len(names) > 0 {
+		old := st.ghostInt(ghClock)
+		nv := x.freshVar("clock", SInt)
+		st.ghost[ghClock] = nv
+		st.add(Ge(nv, old))
+	}
 	for _, n := range sortedKeys(names) {
 		k := "#call$" + n
 		old := st.ghostInt(k)
 		nv := x.freshVar("calls", SInt)
 		st.ghost[k] = nv
 		st.add(Ge(nv, old))
+		delete(st.ghost, ghWhen+n)
+		if _, seen := st.ghost[ghFirst+n]; !seen {
+			// the first call may happen in an iteration nothing is known about
+			st.ghost[ghFirst+n] = x.freshVar("first", SInt)
+		}
 		for g := range st.ghost {
 			if strings.HasPrefix(g, "#arg$"+n+"$") || strings.HasPrefix(g, "#ret$"+n+"$") {
 				delete(st.ghost, g)
